@@ -130,11 +130,17 @@ impl Gen {
                 Some(("vertriple".into(), json!({"a": codes(&a), "b": codes(&b), "c": codes(&c)})))
             }
             "patmatch" | "patdewey" | "patglob" | "patbrace" => {
-                let (p, names) = match self.driver.as_str() {
-                    "patdewey" => patterns::dewey(rng),
-                    "patglob" => patterns::glob(rng),
-                    "patbrace" => patterns::brace(rng),
-                    _ => patterns::any(rng),
+                let (p, names) = loop {
+                    let (p, names) = match self.driver.as_str() {
+                        "patdewey" => patterns::dewey(rng),
+                        "patglob" => patterns::glob(rng),
+                        "patbrace" => patterns::brace(rng),
+                        _ => patterns::any(rng),
+                    };
+                    // version comparison is specified for digit runs of at most 18 digits (C01)
+                    if versions::max_digit_run(&p) <= 18 && names.iter().all(|n| versions::max_digit_run(n) <= 18) {
+                        break (p, names);
+                    }
                 };
                 let ns: Vec<Value> = names.iter().map(|n| codes(n)).collect();
                 Some(("patmatch".into(), json!({"p": codes(&p), "ns": ns})))
@@ -144,8 +150,13 @@ impl Gen {
             "depend" => Some(("depend".into(), json!({"s": codes(&names::depend(rng))}))),
             "reduce" => {
                 // a pool of candidates for one pattern and a random order of pairwise reductions
-                let (p, mut names) = match rng.below(3) { 0 => patterns::dewey(rng), 1 => patterns::glob(rng), _ => patterns::brace(rng) };
-                while names.len() < 2 { names.push(patterns::mutate_name(rng, &p)); }
+                let (p, names) = loop {
+                    let (p, mut names) = match rng.below(3) { 0 => patterns::dewey(rng), 1 => patterns::glob(rng), _ => patterns::brace(rng) };
+                    while names.len() < 2 { names.push(patterns::mutate_name(rng, &p)); }
+                    if versions::max_digit_run(&p) <= 18 && names.iter().all(|n| versions::max_digit_run(n) <= 18) {
+                        break (p, names);
+                    }
+                };
                 let n = rng.range(2, 8);
                 let pool: Vec<String> = (0..n).map(|_| names[rng.below(names.len())].clone()).collect();
                 let mut steps = vec![];
@@ -161,10 +172,15 @@ impl Gen {
                 Some(("reduce".into(), json!({"p": codes(&p), "pool": pj, "steps": steps})))
             }
             "best" => {
-                let (p, mut names) = patterns::any(rng);
-                while names.len() < 2 {
-                    names.push(patterns::mutate_name(rng, &p));
-                }
+                let (p, names) = loop {
+                    let (p, mut names) = patterns::any(rng);
+                    while names.len() < 2 {
+                        names.push(patterns::mutate_name(rng, &p));
+                    }
+                    if versions::max_digit_run(&p) <= 18 && names.iter().all(|n| versions::max_digit_run(n) <= 18) {
+                        break (p, names);
+                    }
+                };
                 let a = names[rng.below(names.len())].clone();
                 let b = if rng.chance(1, 8) { a.clone() } else { names[rng.below(names.len())].clone() };
                 Some(("best".into(), json!({"p": codes(&p), "a": codes(&a), "b": codes(&b)})))
